@@ -9,6 +9,8 @@
 //
 // tee: tee variant + 4 * connection kind.  Tee variant: 0 off, 1 TeeIn, 2 TeeOut, 3 both (the
 // model only distinguishes 0 / not 0); connection kind: see connKinds in scenario.go.
+// Kinds 0-3: TCP framing (net.Conn, io.ReadWriter, ConnectionState() wrapper, *tls.Conn); 4-8: the
+// WebSocket framing (raw carriers, client *websocket.Conn with an http: / https: / wss: origin).
 // explicit: StartTLS(cfg) with ServerName explicit.example / StartTLS(nil).
 // domain: index of the domainpart of the session's own address (origin);
 // remote: of the remote address (location) — equal or different.
@@ -16,7 +18,11 @@
 // that C02 does not constrain and that are probed once per run (see ctx).
 // others: id.nec.proh.negotiable,…  — instrumented features besides STARTTLS.
 // clear: clear-text segments '/'-separated, units ','-separated (see unit).
-// prot: what the peer sends in the TLS phase: units, or J = raw junk below TLS.
+// prot: what the peer sends in the TLS phase: units, or J = raw junk below TLS, or (first item) C1 /
+// C2 = the ClientHello is answered with a certificate for another name / of an unknown CA.
+// Units: see scenario.go (D: a stream error that declares its namespace itself).  A scenario with
+// oversized units carries the segmentation the decoder's 4096-byte reads induce; the comment
+// #oversized=<script with sizes> of its case keeps the original for the replay.
 // oracle: id.mask.restart.err,… — the features the implementation negotiated,
 // in order, with the scripted results of their Negotiate callbacks (the model
 // checks each pick against the set its selection rule allows).
@@ -140,6 +146,7 @@ func (c *ctx) line(sc scenario, res result) string {
 func (c *ctx) check(sc scenario, tees []int, class string) (base result) {
 	r := c.r
 	sc.tee = 0
+	sc = sc.normal()
 	base = c.exec(sc, nil)
 	baseLine := c.line(sc, base)
 	compliant := secureCompliant(sc)
@@ -153,6 +160,33 @@ func (c *ctx) check(sc scenario, tees []int, class string) (base result) {
 	lines := emit(sc, base)
 	oracle(sc, base, lines)
 	return c.checkTees(sc, base, lines, tees, key)
+}
+
+// normal: with the WebSocket framing no header element declares the stream prefix, so the only
+// stream error a peer can send is the one that declares the namespace itself (unit D)
+func (sc scenario) normal() scenario {
+	if !sc.ws() {
+		return sc
+	}
+	var clear [][]unit
+	for _, seg := range sc.clear {
+		ns := append([]unit(nil), seg...)
+		for i := range ns {
+			if ns[i].kind == 'E' {
+				ns[i].kind = 'D'
+			}
+		}
+		clear = append(clear, ns)
+	}
+	sc.clear = clear
+	prot := append([]pu(nil), sc.prot...)
+	for i := range prot {
+		if !prot[i].junk && prot[i].u.kind == 'E' {
+			prot[i].u.kind = 'D'
+		}
+	}
+	sc.prot = prot
+	return sc
 }
 
 // scriptKey: coarse, stable normal form of the script: shape of the first features list and
@@ -254,6 +288,20 @@ func (c *ctx) judge(sc scenario, res result, lines []string) {
 					break
 				}
 			}
+		}
+		// "a TLS-protected stream or an error": protected means the peer was authenticated — a
+		// session whose ClientHello was answered with a certificate for another name, or of a CA
+		// the configuration does not trust, must not come about (default and explicit config alike)
+		if k := sc.badCert(); k != 0 && strings.HasPrefix(res.outcome, "done.") && (res.hello != "" || sc.ck == 3) {
+			cfgK := "default-config"
+			if sc.explicit {
+				cfgK = "explicit-config"
+			}
+			if sc.ck == 3 {
+				cfgK = "tls-conn"
+			}
+			r.Fail("certificate-verified", fmt.Sprintf("%s/%s/cert%d", teeK, cfgK, k), lines,
+				fmt.Sprintf("NewSession returned a session (%s) although the peer presented a %s", res.outcome, certKinds[k]))
 		}
 		scriptedSecure := false // an instrumented feature was told to return the Secure bit itself
 		for _, p := range res.picks {
@@ -378,6 +426,11 @@ func caseLines(prop, line string, sc scenario) []string {
 			f = append(f, strconv.Itoa(n))
 		}
 		out = append(out, "#split="+strings.Join(f, ","))
+	}
+	if sc.hasPad() {
+		// the script as the peer sends it, with the sizes of its oversized units (the line has the
+		// segmentation the decoder's bounded reads induce)
+		out = append(out, "#oversized="+clearFieldOf(sc.clear, true))
 	}
 	if sc.mech != 0 {
 		// which mechanisms the real SASL feature is configured with (the model sees its masks)
@@ -814,12 +867,100 @@ func (c *ctx) corpus(tees []int) {
 			c.check(sc, tees, "corpus-conn-kinds")
 		}
 	}
+	// 10. the WebSocket framing (websocket.Negotiator, websocket.NewSession): the same negotiator
+	// with <open/> headers, on raw carriers and on real client *websocket.Conn values whose origin
+	// is an http:, https: or wss: URL while the location is ws: (clear text).  Lists without
+	// STARTTLS (empty, unknown feature, SASL only), with it, next to the real SASL/bind features
+	// and an instrumented one; proceed / refused; the tee.
+	for _, ck := range wsKinds {
+		for mech := 0; mech < 2; mech++ {
+			bim := builtinOthers(mech)
+			for _, l := range []unit{list(), list(item{id: 9, req: true, ok: true}), list(sa), list(sa, bd), list(it(0, true), sa, bd), list(it(0, false), sa), list(it(0, true))} {
+				for _, a := range []byte{'P', 'F'} {
+					sc := scenario{ck: ck, mech: mech, others: bim, clear: [][]unit{{hdr(true), l}, {u(a)}}, prot: []pu{{u: hdr(true)}, {u: list()}}, domain: 1 + mech, remote: 1 + mech}
+					c.check(sc, []int{1 + (ck+mech)%3}, "corpus-websocket")
+				}
+			}
+			for k := 0; k < 6; k++ {
+				c.check(scenario{ck: ck, mech: mech, others: bim, clear: [][]unit{{hdr(true), list(it(0, true), sa)}, {u('P')}}, prot: []pu{{u: hdr(true)}, {u: list()}}}, nil, "corpus-websocket")
+			}
+		}
+		for _, l := range []unit{list(), list(it(0, true), it(1, true)), list(it(1, true)), list(it(0, false), it(1, false))} {
+			for _, st0 := range []uint8{0, uint8(xmpp.S2S)} {
+				sc := scenario{ck: ck, state0: st0, others: []other{{id: 1, nec: 1, negotiable: true}}, clear: [][]unit{{hdr(true), l}, {u('P')}},
+					prot: []pu{{u: hdr(true)}, {u: list(it(1, true))}, {u: list()}}, results: []negRes{{mask: 2}, {mask: 0}}, domain: 1, remote: 3}
+				c.check(sc, tees, "corpus-websocket")
+			}
+		}
+		// the header of the other framing, a stream error in place of the header, a header with
+		// another 'to'
+		for _, h := range []unit{{kind: 'H', variant: 3}, u('D'), u('E'), hdrA(1, &addr{1, 2, 0}), hdrA(0, nil)} {
+			c.check(scenario{ck: ck, clear: [][]unit{{h, list(it(0, true))}, {u('P')}}, prot: []pu{{u: hdr(true)}, {u: list()}}, domain: 1, remote: 1}, []int{3}, "corpus-websocket")
+		}
+		c.pipelined(scenario{ck: ck, clear: [][]unit{{hdr(true), list(it(0, true))}, {u('P')}}, prot: []pu{{u: hdr(true)}, {u: list()}}},
+			[]unit{hdr(true), list()}, []int{2}, "corpus-websocket")
+	}
+	// 11. "TLS-protected" means the peer was authenticated: a certificate for another name / of an
+	// unknown CA ends the negotiation with a TLS error — default and explicit configuration,
+	// advertised and forced STARTTLS, every clear kind of connection and the *tls.Conn
+	for _, ck := range []int{0, 1, 2, 3, 4, 5, 6, 7} {
+		for cert := 1; cert <= 2; cert++ {
+			for _, explicit := range []bool{false, true} {
+				for _, l := range []unit{list(it(0, true)), list(), list(it(0, false), sa)} {
+					sc := scenario{ck: ck, explicit: explicit, others: bi, clear: [][]unit{{hdr(true), l}, {u('P')}},
+						prot: []pu{{junk: true, cert: cert}, {u: hdr(true)}, {u: list()}}, domain: cert, remote: cert}
+					if ck == 3 {
+						sc.clear = nil
+					}
+					c.check(sc, []int{1 + (ck+cert)%3}, "corpus-bad-certificate")
+				}
+			}
+		}
+	}
+	// a stream error that declares its namespace itself, in every position (TCP framing)
+	for _, cl := range [][][]unit{{{u('D')}}, {{hdr(true), u('D')}}, {{hdr(true), list(it(0, true))}, {u('D')}}} {
+		c.check(scenario{clear: cl}, []int{3}, "corpus")
+	}
+	c.check(scenario{clear: [][]unit{{hdr(true), list(it(0, true))}, {u('P')}}, prot: []pu{{u: u('D')}}}, []int{3}, "corpus")
+	c.check(scenario{clear: [][]unit{{hdr(true), list(it(0, true))}, {u('P')}}, prot: []pu{{u: hdr(true)}, {u: u('D')}}}, []int{3}, "corpus")
 	// 5. clear text pipelined behind <proceed/>
 	c.pipelined(scenario{clear: [][]unit{{hdr(true), list(it(0, true))}, {u('P')}}, prot: []pu{{u: hdr(true)}, {u: list()}}},
 		[]unit{hdr(true), list()}, tees, "corpus")
 }
 
+// oversized: units larger than the decoder's read-ahead (4096 bytes), around its boundary and well
+// beyond it: white space before the header, a foreign element where the list is expected, and —
+// the interesting one — clear text pipelined behind <proceed/> in the same segment: what fits into
+// the read-ahead is dropped with it, what does not is still on the connection when the TLS layer
+// starts.  Raw carriers only (a *websocket.Conn reads through a buffer of its own).
+func (c *ctx) oversized(tees []int) {
+	n := 0
+	for _, pad := range []int{100, 3900, 3990, 4020, 4050, 4080, 4110, 5000, 8300, 13000} {
+		for _, ck := range []int{0, 1, 2, 4, 5} {
+			big := func(k byte) unit { return unit{kind: k, pad: pad} }
+			tls := []pu{{u: hdr(true)}, {u: list()}}
+			for _, cl := range [][][]unit{
+				{{hdr(true), list(it(0, true))}, {u('P'), big('O')}},
+				{{hdr(true), list(it(0, true))}, {u('P'), big('W'), hdr(true), list()}},
+				{{hdr(true), list(it(0, true)), u('P'), big('W')}},
+				{{hdr(true), list()}, {u('P'), big('O'), u('M')}},
+				{{big('W'), hdr(true), list(it(0, false))}, {u('P')}},
+				{{hdr(true), big('O'), list(it(0, true))}},
+				{{hdr(true), list(it(0, true))}, {big('W'), u('P')}},
+				{{hdr(true), list(it(0, true))}, {big('O'), u('P')}},
+			} {
+				n++
+				c.check(scenario{ck: ck, clear: cl, prot: tls, domain: n % 4, remote: (n / 2) % 4, explicit: n%3 == 0}, []int{1 + n%3}, "oversized")
+			}
+		}
+	}
+}
+
 // headerTos: every 'to' a header can carry (nil: none)
+// wsKinds: the kinds of connection with the WebSocket framing; allClearKinds: every clear-text kind
+var wsKinds = []int{4, 5, 6, 7, 8}
+var allClearKinds = []int{0, 1, 2, 4, 5, 6, 7, 8, 0, 1, 2}
+
 func headerTos() []*addr {
 	out := []*addr{nil}
 	for loc := 0; loc < 3; loc++ {
@@ -920,7 +1061,11 @@ func (c *ctx) exhaustive(tees []int) {
 							continue
 						}
 						sc := scenario{others: []other{f1}, clear: segs(one, h, f, a), prot: p,
-							results: []negRes{{mask: 2}, {mask: 0}}, domain: n % 4, remote: (n / 4) % 4, explicit: n%3 == 0, ck: (n / 2) % 3}
+							results: []negRes{{mask: 2}, {mask: 0}}, domain: n % 4, remote: (n / 4) % 4, explicit: n%3 == 0, ck: allClearKinds[(n/2)%len(allClearKinds)]}
+						if n%6 == 5 {
+							// a server-to-server initiator (own address = the bare domain, jabber:server)
+							sc.state0 = uint8(xmpp.S2S)
+						}
 						sc.clear = relDomains(sc.clear, sc.domain)
 						if n%2 == 1 {
 							sc = useFeature2(sc, f2)
@@ -1009,14 +1154,17 @@ func useFeature2(sc scenario, f2 other) scenario {
 
 func (c *ctx) random(n int, tees []int) {
 	rnd := c.r.Rnd
-	kinds := []byte{'P', 'F', 'E', 'G', 'O', 'W', 'M'}
+	kinds := []byte{'P', 'F', 'E', 'G', 'O', 'W', 'M', 'D'}
 	for i := 0; i < n; i++ {
 		sc := scenario{domain: rnd.Intn(4), explicit: rnd.Chance(1, 3)}
 		sc.remote = sc.domain
 		if rnd.Bool() {
 			sc.remote = rnd.Intn(4)
 		}
-		sc.ck = rnd.Intn(3)
+		sc.ck = allClearKinds[rnd.Intn(len(allClearKinds))]
+		if sc.wsConn() && rnd.Bool() {
+			sc.remote = sc.domain // (what websocket.NewSession fixes)
+		}
 		tlsConn := rnd.Chance(1, 8)
 		if rnd.Chance(1, 6) {
 			sc.state0 = []uint8{2, 64, 66}[rnd.Intn(3)] // Authn, S2S
@@ -1152,6 +1300,9 @@ func (c *ctx) random(n int, tees []int) {
 			}
 		}
 		// TLS phase
+		if rnd.Chance(1, 15) {
+			sc.prot = append(sc.prot, pu{junk: true, cert: 1 + rnd.Intn(2)})
+		}
 		np := rnd.Intn(5)
 		for k := 0; k < np; k++ {
 			// (a round without a header: what follows a required feature that was
@@ -1217,7 +1368,7 @@ func (c *ctx) deep(n int, tees []int) {
 		if rnd.Chance(1, 3) {
 			sc.clear = [][]unit{{hdr(true), list()}, {u('P')}} // forced attempt
 		}
-		sc.ck = rnd.Intn(3)
+		sc.ck = allClearKinds[rnd.Intn(len(allClearKinds))]
 		if rnd.Chance(1, 6) {
 			sc.ck = 3
 			sc.clear = nil
@@ -1284,6 +1435,20 @@ func Run(r *common.Run) error {
 			}
 			if strings.HasPrefix(l, "#mech=") && len(scs) > 0 {
 				scs[len(scs)-1].mech, _ = strconv.Atoi(strings.TrimPrefix(l, "#mech="))
+				continue
+			}
+			if strings.HasPrefix(l, "#oversized=") && len(scs) > 0 {
+				var clear [][]unit
+				for _, seg := range strings.Split(strings.TrimPrefix(l, "#oversized="), "/") {
+					var us []unit
+					for _, x := range strings.Split(seg, ",") {
+						if un, err := parseUnit(x); err == nil {
+							us = append(us, un)
+						}
+					}
+					clear = append(clear, us)
+				}
+				scs[len(scs)-1].clear = clear
 				continue
 			}
 			if strings.HasPrefix(l, "#split=") && len(scs) > 0 {
@@ -1359,6 +1524,7 @@ func Run(r *common.Run) error {
 	c.corpus(all)
 	c.histories(r.Pick(60, 600), false)
 	c.histories(r.Pick(40, 300), true)
+	c.oversized(all)
 	c.exhaustive(all)
 	c.random(r.Pick(2500, 20000), all)
 	c.deep(r.Pick(800, 8000), all)
